@@ -52,7 +52,7 @@ fn config(cases: u32, seed: u64) -> Config {
 /// `oracle` returns Err(description) on a violation. The first failing shard shrinks its case.
 pub fn explore<T, S, F>(rep: &mut Report, ctx: &Ctx, stage: &str, cases: u32, strat: impl Fn() -> S + Sync, oracle: F)
 where
-    T: std::fmt::Debug + Clone + Serialize,
+    T: std::fmt::Debug + Clone + Serialize + Send,
     S: Strategy<Value = T>,
     F: Fn(&T, &mut Stats) -> Result<(), String> + Sync,
 {
@@ -62,7 +62,7 @@ where
 /// `explore` with an explicit stack size for the threads that run the oracle.
 pub fn explore_with_stack<T, S, F>(rep: &mut Report, ctx: &Ctx, stage: &str, cases: u32, strat: impl Fn() -> S + Sync, oracle: F, stack: usize)
 where
-    T: std::fmt::Debug + Clone + Serialize,
+    T: std::fmt::Debug + Clone + Serialize + Send,
     S: Strategy<Value = T>,
     F: Fn(&T, &mut Stats) -> Result<(), String> + Sync,
 {
@@ -74,9 +74,34 @@ where
     let stop = AtomicBool::new(false);
     let merged = Mutex::new(Stats::default());
     let failure: Mutex<Option<Failure>> = Mutex::new(None);
+    // one slot per thread: the case it is executing and the thread's CPU time when it started (watchdog, below)
+    let slots: Vec<Mutex<Slot<T>>> = (0..threads).map(|_| Mutex::new(Slot { clock: 0, started_ms: 0, case: None })).collect();
+    let finished = std::sync::atomic::AtomicUsize::new(0);
     std::thread::scope(|sc| {
+        // Watchdog: a case that has used more CPU time than any legitimate case by orders of magnitude (a loop that
+        // never returns) cannot be unwound; it is written out as the failing case and the process ends with the
+        // violation status. CPU time of the thread, never wall clock: load on the machine does not matter.
+        {
+            let (slots, finished) = (&slots, &finished);
+            let (prop, seed, stage) = (ctx.prop.clone(), ctx.seed, stage.to_string());
+            sc.spawn(move || {
+                let limit_ms = cpu_limit_ms();
+                while finished.load(Ordering::Relaxed) < threads {
+                    std::thread::sleep(std::time::Duration::from_millis(500));
+                    for sl in slots.iter() {
+                        let g = sl.lock().unwrap();
+                        if let Some(c) = &g.case {
+                            let used = thread_cpu_ms(g.clock).saturating_sub(g.started_ms);
+                            if used > limit_ms {
+                                report_hang_and_exit(&prop, seed, &stage, serde_json::to_value(c).unwrap_or(Value::Null), used / 1000);
+                            }
+                        }
+                    }
+                }
+            });
+        }
         for shard in 0..threads {
-            let (stop, merged, failure, strat, oracle) = (&stop, &merged, &failure, &strat, &oracle);
+            let (stop, merged, failure, strat, oracle, slots, finished) = (&stop, &merged, &failure, &strat, &oracle, &slots, &finished);
             let n = cases / threads as u32 + if (shard as u32) < cases % threads as u32 { 1 } else { 0 };
             let seed = util::mix(ctx.seed, &format!("{}/{}", ctx.prop, stage), shard as u64);
             std::thread::Builder::new()
@@ -84,6 +109,25 @@ where
                 .spawn_scoped(sc, move || {
                     let stats = RefCell::new(Stats::default());
                     let failed = RefCell::new(false);
+                    let my_clock = own_thread_clock();
+                    slots[shard].lock().unwrap().clock = my_clock;
+                    struct Done<'a>(&'a std::sync::atomic::AtomicUsize);
+                    impl Drop for Done<'_> {
+                        fn drop(&mut self) {
+                            self.0.fetch_add(1, Ordering::Relaxed);
+                        }
+                    }
+                    let _done = Done(finished);
+                    let oracle = |c: &T, st: &mut Stats| -> Result<(), String> {
+                        {
+                            let mut g = slots[shard].lock().unwrap();
+                            g.started_ms = thread_cpu_ms(my_clock);
+                            g.case = Some(c.clone());
+                        }
+                        let r = oracle(c, st);
+                        slots[shard].lock().unwrap().case = None;
+                        r
+                    };
                     let mut runner = TestRunner::new(config(n, seed));
                     let res = runner.run(&strat(), |case| {
                         if *failed.borrow() {
@@ -147,6 +191,48 @@ where
     let st = merged.into_inner().unwrap();
     let f = failure.into_inner().unwrap();
     rep.stage_done(stage, st, t0.elapsed().as_secs_f64(), f);
+}
+
+struct Slot<T> {
+    clock: libc::clockid_t,
+    started_ms: u64,
+    case: Option<T>,
+}
+
+/// CPU-time ceiling of one case / one replay (seconds in VERIF_CPU_LIMIT, default 120)
+pub fn cpu_limit_ms() -> u64 {
+    std::env::var("VERIF_CPU_LIMIT").ok().and_then(|s| s.parse::<u64>().ok()).unwrap_or(120) * 1000
+}
+
+fn own_thread_clock() -> libc::clockid_t {
+    let mut c: libc::clockid_t = 0;
+    unsafe { libc::pthread_getcpuclockid(libc::pthread_self(), &mut c) };
+    c
+}
+
+fn thread_cpu_ms(clock: libc::clockid_t) -> u64 {
+    let mut ts = libc::timespec { tv_sec: 0, tv_nsec: 0 };
+    if unsafe { libc::clock_gettime(clock, &mut ts) } != 0 {
+        return 0;
+    }
+    ts.tv_sec as u64 * 1000 + ts.tv_nsec as u64 / 1_000_000
+}
+
+/// A case that does not return: written as the replay, reported as the violation, and the process ends (the thread
+/// cannot be stopped any other way).
+pub fn report_hang_and_exit(prop: &str, seed: u64, stage: &str, case: Value, secs: u64) -> ! {
+    let what = format!("no return after {secs} s of CPU time in this case (the operation under test does not terminate)");
+    let body = serde_json::json!({"property": prop, "flavour": crate::consts::FLAVOUR, "stage": stage, "what": what, "case": case, "seed": seed});
+    let h = util::hash64(serde_json::to_string(&body).unwrap_or_default().as_bytes());
+    let dir = format!("{}/replays", util::root());
+    std::fs::create_dir_all(&dir).ok();
+    let path = format!("{dir}/{prop}-{}-{h:016x}.json", crate::consts::FLAVOUR);
+    std::fs::write(&path, serde_json::to_string_pretty(&body).unwrap_or_default()).ok();
+    println!("DETAIL property={prop} flavour={} stage={stage} what={what}", crate::consts::FLAVOUR);
+    println!("VIOLATION property={prop} replay={path}");
+    use std::io::Write;
+    std::io::stdout().flush().ok();
+    std::process::exit(1);
 }
 
 /// run the oracle, turning an uncaught panic into a failure description
@@ -235,7 +321,7 @@ pub fn draw<T: std::fmt::Debug, S: Strategy<Value = T>>(ctx: &Ctx, stage: &str, 
 /// stack; print "C <case json>" before each case and "R <report json>" at the end (stdout).
 pub fn worker_serve<T, S, F>(prop: &str, seed: u64, shard: u64, stages: &[(&str, u32)], strat: impl Fn(&str) -> S + Sync, oracle: F, stack: usize) -> i32
 where
-    T: std::fmt::Debug + Clone + Serialize,
+    T: std::fmt::Debug + Clone + Serialize + Send,
     S: Strategy<Value = T>,
     F: Fn(&T, &mut Stats) -> Result<(), String> + Sync,
 {
